@@ -225,6 +225,16 @@ def concatenate(parts, axis=0):
     return out
 
 
+def diag(x):
+    from ..tensor import Tensor
+
+    Assumed.note("jnp.diag(v) is the square matrix with v on the diagonal and 0 elsewhere")
+    if not isinstance(x, Tensor) or x.ndim != 1:
+        raise EngineLimit("diag of non-vector")
+    n = x.shape[0]
+    return Tensor((n, n), lambda idx: z3.If(idx[0] == idx[1], x.fn((idx[0],)), z3.RealVal(0)))
+
+
 def zeros(shape, dtype=None):
     from ..tensor import Tensor
 
@@ -248,7 +258,7 @@ def ones(shape, dtype=None):
 def namespace(**extra):
     ns = types.SimpleNamespace(
         array=array, asarray=asarray, shape=shape, ndim=ndim, where=where, sum=sum, any=any,
-        minimum=minimum, maximum=maximum, log=log, exp=exp, add=add, ndarray=object, arange=arange, zeros=zeros, ones=ones, mean=mean, repeat=repeat, nan=float('nan'), cumsum=cumsum, searchsorted=searchsorted, concatenate=concatenate,
+        minimum=minimum, maximum=maximum, log=log, exp=exp, add=add, ndarray=object, arange=arange, zeros=zeros, ones=ones, mean=mean, repeat=repeat, nan=float('nan'), cumsum=cumsum, searchsorted=searchsorted, diag=diag, concatenate=concatenate,
         float32="float32", int32="int32", bool_="bool", pi=3.141592653589793,
     )
     for k, v in extra.items():
